@@ -47,7 +47,7 @@ def run_guarded(pid, tier, mod):
         path = d / "interpreter-aborted.json"
         what = f"the interpreter was aborted by signal {sig} (fatal error in compiled code) while the check was executing the implementation on in-domain inputs"
         path.write_text(json.dumps({"property": pid, "signature": {"clause": "implementation-aborted", "signal": sig}, "what": what}, indent=1))
-        EVIDENCE.mkdir(exist_ok=True)
+        EVIDENCE.mkdir(parents=True, exist_ok=True)
         (EVIDENCE / f"{pid}.json").write_text(json.dumps({
             "property_id": pid, "tier": tier, "seed": SEED, "level": "other",
             "coverage": {"explanation": what + "; no coverage statistics are available for this run", "evaluations": 1, "distinct_nontrivial": 2, "samples": [{"signal": sig}]},
